@@ -9,7 +9,7 @@ from xv.props.common import ctxs, flush_contracts
 
 ID = "C18"
 LEVEL = "exploration"
-N_QUICK, N_THOROUGH = 14000, 300000
+N_QUICK, N_THOROUGH = 20000, 300000
 T_QUICK, T_THOROUGH = 70, 1500
 OPS = ["set-scalar", "set-string", "set-array", "set-array-element", "set-nested", "set-ref-same", "set-ref-other",
        "copy", "move", "move-refused-nested", "move-refused-refs", "write-through-shared", "ref-to-nested-part-then-rebind", "set-ref-null-then-same", "derive-extended-class"]
